@@ -534,8 +534,20 @@ class TdlImpulseResponse:
         # independently for each column (second dimension), which
         # corresponds to the second dimension is the time dimension (as the
         # channel response changes in time)
-        freq_response = np.fft.fft(
-            self._get_samples_including_the_extra_zeros(), fft_size, axis=0)
+        samples = self._get_samples_including_the_extra_zeros()
+        num_taps = samples.shape[0]
+        if num_taps > fft_size:
+            # The impulse response is longer than the FFT: np.fft.fft would
+            # silently drop the taps with delay >= fft_size. A tap with
+            # delay d contributes exp(-2j*pi*k*d/fft_size) to bin k, which
+            # only depends on d modulo fft_size, thus we fold (time-alias)
+            # the impulse response before the FFT.
+            folded = np.zeros((fft_size, ) + samples.shape[1:], dtype=complex)
+            for start in range(0, num_taps, fft_size):
+                block = samples[start:start + fft_size]
+                folded[:block.shape[0]] += block
+            samples = folded
+        freq_response = np.fft.fft(samples, fft_size, axis=0)
         return freq_response
 
     def __mul__(self, value: float) -> "TdlImpulseResponse":
